@@ -31,7 +31,8 @@ CONFIGS = {
     'tests-lib':       ('repo', 'minicbor-tests', 'std', 'minicbor_tests', 'minicbor,minicbor_tests'),
     'schemas':         ('harness', 'mcv-schemas', '', 'mcv_schemas', 'minicbor,mcv_schemas'),
     'schemas-rand':    ('harness', 'mcv-schemas-rand', '', 'mcv_schemas_rand', 'minicbor,mcv_schemas_rand'),
-    'schemas-alloc':   ('harness', 'mcv-schemas-alloc', '', 'mcv_schemas_alloc', 'minicbor,mcv_schemas_alloc'),
+    # the derive corpus in a no_std + alloc crate (the proc-macro's own std / alloc features select templates); same lib name
+    'schemas-alloc':   ('harness', 'mcv-schemas-alloc', '', 'mcv_schemas', 'minicbor,mcv_schemas'),
     'fixtures':        ('harness', 'mcv-fixtures', '', 'mcv_fixtures', 'minicbor,mcv_fixtures'),
     'serde-harness':   ('harness', 'mcv-serde-harness', '', 'mcv_serde_harness', 'minicbor,minicbor_serde,mcv_serde_harness'),
 }
@@ -170,6 +171,7 @@ def _run_config(cfg, out, log):
         # ... and every package of the analysed workspace: a restored file may carry an mtime older than the
         # fingerprint of a build made from a different tree state, which cargo would take for "fresh"
         names |= _workspace_packages()
+        names.add(pkg)
         for d in os.listdir(fp):
             m = re.match(r'^(.*)-[0-9a-f]{16}$', d)
             if m and m.group(1) in names:
